@@ -40,6 +40,7 @@ type recStorage struct {
 	storage.Storage
 	dir     string
 	mu      sync.Mutex
+	fs      sync.RWMutex // file operations (read side) vs. taking a crash image (write side)
 	written map[string]int64 // file name → bytes written
 	synced  map[string]int64 // file name → bytes known durable
 	onEvent func(kind string)
@@ -64,20 +65,29 @@ type recWriter struct {
 	name string
 }
 
+// Every file operation of the engine runs under the READ side of `fs`; a crash image is copied under its WRITE side, so an
+// image is a point-in-time state of the directory between two file operations — also while goleveldb's background goroutines
+// (journal recovery after an open, memtable and table compaction) are at work. (Copying without it produced, under heavy
+// machine load, an image mixing an old CURRENT/MANIFEST with a directory listing taken before a new table appeared: a state
+// no crash can leave behind, reported as `completed-flush-not-durable`.)
 func (w *recWriter) Write(p []byte) (int, error) {
+	w.s.fs.RLock()
 	n, err := w.Writer.Write(p)
 	w.s.mu.Lock()
 	w.s.written[w.name] += int64(n)
 	w.s.mu.Unlock()
+	w.s.fs.RUnlock()
 	w.s.event("write:" + w.name)
 	return n, err
 }
 
 func (w *recWriter) Sync() error {
+	w.s.fs.RLock()
 	err := w.Writer.Sync()
 	w.s.mu.Lock()
 	w.s.synced[w.name] = w.s.written[w.name]
 	w.s.mu.Unlock()
+	w.s.fs.RUnlock()
 	w.s.event("sync:" + w.name)
 	return err
 }
@@ -89,8 +99,10 @@ func (s *recStorage) event(kind string) {
 }
 
 func (s *recStorage) Create(fd storage.FileDesc) (storage.Writer, error) {
+	s.fs.RLock()
 	w, err := s.Storage.Create(fd)
 	if err != nil {
+		s.fs.RUnlock()
 		return nil, err
 	}
 	name := genName(fd)
@@ -98,28 +110,35 @@ func (s *recStorage) Create(fd storage.FileDesc) (storage.Writer, error) {
 	s.written[name] = 0
 	s.synced[name] = 0
 	s.mu.Unlock()
+	s.fs.RUnlock()
 	s.event("create:" + name)
 	return &recWriter{Writer: w, s: s, name: name}, nil
 }
 
 func (s *recStorage) SetMeta(fd storage.FileDesc) error {
+	s.fs.RLock()
 	err := s.Storage.SetMeta(fd)
+	s.fs.RUnlock()
 	s.event("setmeta:" + genName(fd))
 	return err
 }
 
 func (s *recStorage) Remove(fd storage.FileDesc) error {
+	s.fs.RLock()
 	err := s.Storage.Remove(fd)
+	s.fs.RUnlock()
 	s.event("remove:" + genName(fd))
 	return err
 }
 
 func (s *recStorage) Rename(o, n storage.FileDesc) error {
+	s.fs.RLock()
 	err := s.Storage.Rename(o, n)
 	s.mu.Lock()
 	s.written[genName(n)] = s.written[genName(o)]
 	s.synced[genName(n)] = s.synced[genName(o)]
 	s.mu.Unlock()
+	s.fs.RUnlock()
 	s.event("rename:" + genName(n))
 	return err
 }
@@ -241,6 +260,8 @@ func (r *crashRunner) snapshot(kind, tail string) {
 	r.imgSeq++
 	img := filepath.Join(r.dir, fmt.Sprintf("img%d", r.imgSeq))
 	_ = os.MkdirAll(img, 0o700)
+	r.stor.fs.Lock()
+	defer r.stor.fs.Unlock()
 	entries, _ := os.ReadDir(r.stor.dir)
 	r.stor.mu.Lock()
 	defer r.stor.mu.Unlock()
